@@ -108,6 +108,51 @@ rule(T + r"timezone::TimeZoneName::new$", "(lossy-cast|bounds)", r".*", "len is 
 rule(T + r"timezone::TimeZoneRef::<'a>::unix_leap_time_to_unix_time$", "bounds", r"index\(Sub\(index,1\)", "Err(0) / Ok(_) arms: index >= 1 in this arm and index <= len (binary_search)")
 rule(T + r"timezone::TimeZoneRef::<'a>::validate$", "(bounds|overflow)", r".*", "loop indices are guarded by `i < len` / `i + 1 < len` in the loop conditions; [0] is guarded by !is_empty(); last_transition's type index was checked in the first loop")
 
+# ---- thorough tier: infallible public functions (root set I) ---------------------------------------
+rule(r"^<T as round::SubsecRound>::round_subsecs$", "overflow", r"Sub\(span,delta_down\)", "delta_down = nanosecond() % span < span")
+rule(r"^<format::ParseError as std::fmt::Display>::fmt$", "panic", r"unreachable", "ParseErrorKind::__Nonexhaustive is never constructed")
+rule(r"^<naive::date::NaiveDate as std::default::Default>::default$", "unwrap", r"from_ymd_opt\(1970,1,1\)", "constant, valid date (C01 CYCLE.from_ymd covers its year class)")
+rule(r"^<naive::date::NaiveDate(Days|Weeks)Iterator as std::iter::Iterator>::size_hint$", "lossy-cast", r"exact_size as usize", "self.value <= NaiveDate::MAX, so the distance to MAX is >= 0")
+rule(r"^<naive::internals::Mdf as std::fmt::Debug>::fmt$", "invariant", r"YearFlags", "debug output only; the flags lane of an Mdf comes from a YearFlags")
+rule(r"^<time_delta::TimeDelta as std::fmt::Display>::fmt$", "overflow", r"Sub\(figures,1\)", "abs.nanos in 1..10^9 has at most 8 trailing zeros, so figures stays >= 1")
+rule(r"^<time_delta::TimeDelta as std::ops::Add>::add$", "unwrap", r"checked_add", "documented panicking operator (reached from impl Sum, which inherits operator semantics)")
+rule(r"^<time_delta::TimeDelta as std::ops::Neg>::neg$", "invariant", r".*", "range is symmetric (MIN = -MAX): -secs - 1 with nanos = 10^9 - nanos when nanos != 0")
+rule(r"^time_delta::TimeDelta::abs$", "invariant", r".*", "|secs| within the symmetric range; the secs < 0 && nanos != 0 case is normalised first")
+rule(r"^datetime::DateTime::<Tz>::naive_local$", "unwrap", r"checked_add_offset", "documented panicker; reached here only from NaiveDateTime::default() on UNIX_EPOCH with offset 0")
+rule(r"^datetime::DateTime::<offset::utc::Utc>::from_timestamp_nanos$", "unwrap", r"from_timestamp", "every i64 nanosecond count lies within 1677..2262, inside the supported range; nsecs < 10^9 from rem_euclid")
+rule(r"^naive::isoweek::IsoWeek::week0$", "overflow", r"Sub\(", "ISO week numbers are 1..=53 (C01 CYCLE.dates checks iso_week for every year class)")
+rule(r"^offset::local::tz_info::rule::parse_offset$", "overflow", r"Mul\(sign,", "sign is -1 or 1")
+rule(r"^offset::local::tz_info::rule::TransitionRule::from_tz_string$", "overflow", r".*", "offsets come from parse_offset: |value| <= 24*3600 + 59*60 + 59")
+rule(r"^time_delta::TimeDelta::num_milliseconds$", "overflow", r".*", "|secs| <= i64::MAX / 1000 by the type invariant, and the sub-second part keeps the sum within i64 (MAX is exactly i64::MAX ms)")
+rule(r"^weekday_set::WeekdaySet::from_array$", "bounds", r"index\(idx\)", "loop guard idx < days.len()")
+rule(r"^datetime::<impl std::convert::From<datetime::DateTime<Tz>> for std::time::SystemTime>::from$", "overflow", r"SystemTime", "|timestamp| <= 8.3 * 10^12 s is within the platform's SystemTime range (i64 seconds on the analysed target)")
+rule(r"^<naive::date::NaiveDate as traits::Datelike>::(day0|month0|ordinal0)$", "overflow", r"Sub\(", "month, day and ordinal of a valid date are >= 1 (C01 CYCLE.dates)")
+rule(r"^traits::Datelike::(num_days_from_ce|year_ce|num_days_in_month)$", "(overflow|lossy-cast|unwrap)", r".*", "default method of the Datelike trait: relies on the trait contract (year within chrono's range, month 1..=12, ordinal 1..=366); the in-crate implementors are range-checked")
+rule(r"^traits::Timelike::num_seconds_from_midnight$", "overflow", r".*", "default method of the Timelike trait: relies on the trait contract hour < 24, minute < 60, second < 60")
+
+# ---- calls into documented panickers (kind doc-panic): the panic condition is excluded at the call site -------------
+ROUND_RANGE = ("timestamp_nanos_opt() succeeded, so the wall-clock reading lies in 1677-09-21..2262-04-11, and 0 <= delta < span <= i64::MAX ns (292.3 years): "
+               "the result is within 585 years of 1970, far inside NaiveDate::MIN..=MAX, so the operator's overflow panic is unreachable (|offset| < 1 day for DateTime<Tz>)")
+rule(r"^round::duration_(round|trunc|round_up)$", "doc-panic", r"as std::ops::(Add|Sub)<time_delta::TimeDelta>>::(add|sub)\(original,nanoseconds\(", ROUND_RANGE)
+rule(r"^<T as round::SubsecRound>::(round|trunc)_subsecs$", "doc-panic", r"as std::ops::Sub<time_delta::TimeDelta>>::sub\(self,nanoseconds\(into\(delta_down\)\)\)",
+     "delta_down = self.nanosecond() % span <= self.nanosecond(): the result is not before the start of self's own second, which is representable")
+rule(r"^<naive::datetime::NaiveDateTime as std::default::Default>::default$", "doc-panic", r"naive_local\(&const\)",
+     "the receiver is the constant DateTime::UNIX_EPOCH with the zero offset Utc: its local reading is 1970-01-01T00:00:00")
+rule(r"^<time_delta::TimeDelta as std::fmt::Display>::fmt$", "doc-panic", r"Neg>::neg\(self\)",
+     "TimeDelta.secs >= -i64::MAX / 1000 (type invariant, C06 CTOR rules): negation and the borrow of one second cannot overflow")
+# ---- unstable-locales configuration ------------------------------------------------------------------------------
+rule(r"^format::strftime::StrftimeItems::<'a>::(parse_next_item|error)$", "str-boundary", r"index\(&(remainder|original),Range(From|To)\)",
+     "same offsets as the str-index obligation of this site (1 after '%', len_utf8 of chars just read, matched ASCII prefix, find() result): a char boundary; in this configuration the string may also be a locale format string, which is scanned by the same code")
+rule(r"^format::strftime::StrftimeItems::<'a>::parse_next_item$", "unwrap", r"unwrap\(self\.4\)", "guarded by self.locale.is_some() && (short-circuit) in the same condition")
+LOCALE_DATA = ("assumption on the pure-rust-locales tables: d_fmt / d_t_fmt / t_fmt are non-empty and contain none of %c %x %X %r "
+               "(so no nested switch happens while locale_str is pending), and t_fmt_ampm is used only when non-empty")
+rule(r"^format::strftime::StrftimeItems::<'a>::switch_to_locale_str$", "panic", r"locale_str\.is_empty", LOCALE_DATA)
+rule(r"^format::strftime::StrftimeItems::<'a>::switch_to_locale_str$", "unwrap", r"unwrap\(parse_next_item", LOCALE_DATA)
+# ---- SystemTime: platform range ----------------------------------------------------------------------------------
+rule(r"^offset::utc::Utc::now$", "lossy-cast", r"as_secs\(&now\) as i64", "SystemTime stores seconds as i64 on every supported platform, so a duration since the epoch is <= i64::MAX s")
+rule(r"^<datetime::DateTime<offset::utc::Utc> as std::convert::From<std::time::SystemTime>>::from$", "lossy-cast", r"as_secs\(&duration_since\(_,UNIX_EPOCH\)\.0\) as i64",
+     "SystemTime stores seconds as i64 on every supported platform, so a duration since the epoch is <= i64::MAX s")
+
 out = []
 todo = []
 seen = set()
